@@ -993,6 +993,12 @@ func (lb *LB) defFacts(v lvar) []cons {
 		for _, inv := range lb.loopUpperInvariants(x) {
 			out = append(out, inv)
 		}
+		// a counter that starts at a constant and moves by a constant step s with |s| > 1 is start + s*q for an
+		// integer q >= 0 (the prover's integer tightening then knows e.g. off < 16*n  =>  off+16 <= 16*n)
+		if iv, ok := inductionOf(x); ok && (iv.step > 1 || iv.step < -1) && isLoopHeader(x.Block()) {
+			q := linVar(lvar{3, x})
+			out = append(out, eqc(me, linConst(iv.init).addScaled(q.scale(iv.step), 1))...)
+		}
 		// lockstep induction with a linear (not constant) start: lo from 0 up, hi from len-1 down
 		if xi, xs, xe, ok := lb.linInduction(x); ok {
 			for _, q := range phisOf(x.Block()) {
